@@ -29,12 +29,18 @@ class Timestamp:
 
     def __gt__(self, other: Union["Timestamp", float]) -> bool:
         if not isinstance(other, Timestamp):
-            return float(self) > other
+            try:
+                return float(self) > other
+            except OverflowError:
+                return self.sec > other
         return self.nsec > other.nsec if self.sec == other.sec else self.sec > other.sec
 
     def __lt__(self, other: Union["Timestamp", float]) -> bool:
         if not isinstance(other, Timestamp):
-            return float(self) < other
+            try:
+                return float(self) < other
+            except OverflowError:
+                return self.sec < other
         return self.nsec < other.nsec if self.sec == other.sec else self.sec < other.sec
 
 
